@@ -65,14 +65,17 @@ PROPS = {
     },
     "C09": {
         "modules": ["TurnModel.Props.C09"],
-        "harnesses": ["H1", "H5"],
-        "view": ["consume", "frames", "framesb", "cddec", "ischan", "cin", "cnet"],
-        "alarms": ["consume-no-progress", "framer-spins", "harness-died", "inbound-blocks", "h5-setup"],
+        "harnesses": ["H1", "H5", "H2"],
+        "view": ["consume", "frames", "framesb", "cddec", "ischan", "cin", "cnet", "m:junk", "m:unk"],
+        "alarms": ["consume-no-progress", "framer-spins", "harness-died", "inbound-blocks", "h5-setup", "attr-get-panics"],
         "rule": "hostile streams through the real framer and codecs (all 2^16 declared lengths, uint16-overflow lengths 0xFFEC-0xFFFF, "
                 "random garbage of every length 0-40; every stream also read with caller buffers of 1-1600 bytes, smaller than some frames); "
                 "client side (H5): undecodable STUN, requests, foreign responses, garbage from the server and from elsewhere, ChannelData on unknown channels, "
                 "a burst of 1100 datagrams with no reader and 14 ConnectionAttempt indications with nobody accepting - every HandleInbound call must return "
-                "(inbound-blocks otherwise); a crashed or hung harness is reported with the last flushed operation",
+                "(inbound-blocks otherwise); server side (H2): the full generated histories, in which well-formed STUN messages of every (method, class) pair without a handler, "
+                "unknown attributes, non-STUN bytes and oversize frames are mixed with ordinary traffic on packet and stream listeners - the server must stay up and silent on them; "
+                "attribute decoders are called on exact-capacity messages with every wrong size (attr-get-panics); "
+                "a crashed or hung harness is reported with the last flushed operation",
         "trusted_base": H1_TB,
         "assumptions": ["PARTIAL: panics inside pion/stun's decoder and the Go runtime cannot be exhibited by the Lean model; "
                         "the hostile streams are the only evidence for those"],
@@ -106,7 +109,7 @@ PROPS.update({
     "C02": h2prop(["TurnModel.Props.C02"], ["pdata", "pconn", "state"], ["dind", "cdat", "catt", "cclosed"], []),
     "C03": dict(h2prop(["TurnModel.Props.C03", "TurnModel.Props.C03Nonce"],
                        ["m:alloc", "m:refresh", "m:perm", "m:bind", "m:connect", "m:cbind", "state", "snv", "lnv"],
-                       ["resp"], ["nonce-window"],
+                       ["resp"], ["nonce-window", "nonce-foreign-accepted", "nonce-key-not-random"],
                        ["the MAC of the nonce managers is a parameter of the nonce theorems; harness H3 supplies the real HMAC of the decoded timestamp as an oracle entry per operation",
                         "MESSAGE-INTEGRITY verification itself is pion/stun's (exercised for real, modelled as the fact macOK)"]),
                 harnesses=["H2", "H3"]),
